@@ -211,7 +211,14 @@ fn run_case(line: &str, dir: &PathBuf, nfile: &mut usize, out: &Mutex<Vec<String
             };
             out.lock().unwrap().push("seal:ok".to_string());
             match table.metadata() {
-                Ok(m) => out.lock().unwrap().push(meta_str(&m)),
+                Ok(m) => {
+                    // the length of the file actually written must be what metadata() reports
+                    let flen = std::fs::metadata(&path).map(|x| x.len()).unwrap_or(u64::MAX);
+                    if flen != m.file_size {
+                        out.lock().unwrap().push(format!("FILELEN-MISMATCH:{}:{}", flen, m.file_size));
+                    }
+                    out.lock().unwrap().push(meta_str(&m))
+                }
                 Err(e) => out.lock().unwrap().push(format!("meta:ERR:{}", code(&e))),
             }
             if std::env::var("C10_FILE").is_ok() {
@@ -255,7 +262,13 @@ fn run_case(line: &str, dir: &PathBuf, nfile: &mut usize, out: &Mutex<Vec<String
                 match Sst::<sst::file_manager::FileHandle>::new(opts.clone(), p) {
                     Ok(table) => {
                         match table.metadata() {
-                            Ok(m) => out.lock().unwrap().push(meta_str(&m)),
+                            Ok(m) => {
+                                let flen = std::fs::metadata(p).map(|x| x.len()).unwrap_or(u64::MAX);
+                                if flen != m.file_size {
+                                    out.lock().unwrap().push(format!("FILELEN-MISMATCH:{}:{}", flen, m.file_size));
+                                }
+                                out.lock().unwrap().push(meta_str(&m))
+                            }
                             Err(e) => out.lock().unwrap().push(format!("meta:ERR:{}", code(&e))),
                         }
                         out.lock().unwrap().push("[".to_string());
